@@ -73,6 +73,64 @@ def find_closure(prog, parent_fn, idx_path):
     return fs[0]
 
 
+def methods_of(prog, type_name, trait=None):
+    """all `impl [Trait for] Type` method definitions (by impl header), name -> Fn"""
+    out = {}
+    for raw, fs in prog.fns.items():
+        for f in fs:
+            if f.impl_span is None or not f.blocks or '{closure' in f.raw or not re.search(r'<impl>::\w+$', f.name):
+                continue
+            tr, st = prog.impl_header(f.impl_span)
+            if st is None or M.type_head(st) != type_name or (trait is None) != (tr is None):
+                continue
+            if trait is not None and M.type_head(tr) != trait:
+                continue
+            out.setdefault(f.name.rsplit('::', 1)[-1], f)
+    return out
+
+
+def _callees(prog, f, depth=0, seen=None):
+    """short names of everything called from f and from the closures/coroutines nested in it"""
+    names = set()
+    todo = [f] + [g for raw, fs in prog.fns.items() if raw.startswith(f.raw + '::{closure#') for g in fs]
+    for g in todo:
+        for blk in g.blocks.values():
+            for st, _ in blk:
+                if st and st[0] == 'call' and isinstance(st[2], str):
+                    names.add(M.strip_generics(st[2]))
+    return names
+
+
+def find_role_method(prog, type_name, preferred, must_call_re, is_async=True, ret_re=None):
+    """the method of `impl Type` playing a role: the pinned name if it still exists, otherwise the unique method that
+    (transitively through methods of the same impl) reaches a call matching must_call_re and is not itself called by
+    another such method of the impl (the outermost one doing that job)"""
+    ms = methods_of(prog, type_name)
+    for n in preferred:
+        if n in ms:
+            return ms[n]
+    pat = re.compile(must_call_re)
+    calls = {n: _callees(prog, f) for n, f in ms.items()}
+    edges = {n: {m for m in ms if m != n and any(re.search(r'(^|::|>::)' + re.escape(m) + r'$', c) for c in cs)} for n, cs in calls.items()}
+
+    def reaches(n, seen=()):
+        if any(pat.search(c) for c in calls[n]):
+            return True
+        return any(reaches(m, seen + (n,)) for m in edges[n] if m not in seen)
+    cands = [n for n in ms if reaches(n)]
+    if is_async:
+        cands = [n for n in cands if (ms[n].raw + '::{closure#0}') in prog.fns and re.search(r'async fn body|\{async', ms[n].ret)]
+    if ret_re is not None:
+        def rty(n):
+            fs = prog.fns.get(ms[n].raw + '::{closure#0}') if is_async else None
+            return fs[0].ret if fs else ms[n].ret
+        cands = [n for n in cands if re.search(ret_re, rty(n))]
+    roots = [n for n in cands if not any(n in edges[m] for m in cands if m != n)]
+    if len(roots) != 1:
+        raise NotFound(f'{type_name}: method reaching {must_call_re}: candidates {cands}, roots {roots}')
+    return ms[roots[0]]
+
+
 def find_closures_calling(prog, parent_fn, callee_re):
     """closure bodies nested (at any depth) in `parent_fn` whose MIR contains a call matching callee_re"""
     pat = re.compile(callee_re)
@@ -94,6 +152,11 @@ def find_closures_calling(prog, parent_fn, callee_re):
 def executor(crate, models=(), **kw):
     prog, enums = mirdump.program(crate)
     ms = [(re.compile(p) if isinstance(p, str) else p, f) for p, f in models] + MD.GLOBAL_MODELS
+    if os.environ.get('VERIF_TIER_EFFECTIVE') == 'thorough' and not kw.pop('fixed_bounds', False):
+        # thorough tier: deeper inlining and one more loop unrolling than the quick tier (plus the cvc5 differential in solve())
+        kw['max_depth'] = kw.get('max_depth', 2) + int(os.environ.get('VERIF_THOROUGH_DEPTH', '2'))
+        kw['unroll'] = kw.get('unroll', 2) + int(os.environ.get('VERIF_THOROUGH_UNROLL', '1'))
+    kw.pop('fixed_bounds', None)
     ex = Exec(prog, enums, ms, seed=seed(), **kw)
     return ex
 
@@ -242,9 +305,40 @@ def norm_type(t):
     return re.sub(r'\b(?:\w+::)+', '', t)
 
 
+def _split_top(body):
+    out, depth, cur = [], 0, ''
+    for ch in body:
+        if ch in '<([{':
+            depth += 1
+        elif ch in '>)]}':
+            depth -= 1
+        if ch == ',' and depth == 0:
+            out.append(cur)
+            cur = ''
+        else:
+            cur += ch
+    out.append(cur)
+    return [x for x in out if x.strip()]
+
+
 def _parse_struct(src, name):
     src = re.sub(r'//[^\n]*', '', src)
+    mt = re.search(r'\bstruct\s+' + re.escape(name) + r'\b\s*(?:<[^(;{]*>)?\s*\(', src)
     m = re.search(r'\bstruct\s+' + re.escape(name) + r'\b[^{;(]*\{', src)
+    if mt and (not m or mt.start() <= m.start()):
+        # tuple struct: fields are named by their position
+        i = mt.end()
+        d, j = 1, i
+        while j < len(src) and d:
+            d += (src[j] == '(') - (src[j] == ')')
+            j += 1
+        aliases = {a: t for a, t in re.findall(r'^(?:pub(?:\([^)]*\))?\s+)?type\s+(\w+)\s*=\s*([^;]+);', src, re.M)}
+        fields = []
+        for n, f in enumerate(_split_top(re.sub(r'#\s*\[[^\]]*\]', '', src[i:j - 1]))):
+            ty = re.sub(r'^\s*pub(\([^)]*\))?\s+', '', f.strip())
+            ty = re.sub(r'\b(\w+)\b(?!\s*(?:::|<))', lambda m_: aliases.get(m_.group(1), m_.group(1)), ty)
+            fields.append((str(n), norm_type(ty)))
+        return fields
     if not m:
         return None
     i = m.end()
@@ -342,6 +436,24 @@ def struct_fields(relpath, name):
         if pairs is not None:
             return Fields(pairs, name, relpath)
     raise NotFound(f'struct {name} in {relpath}')
+
+
+def struct_agg(relpath, name, bindings, prefix=None):
+    """Agg of struct `name` in its current declaration order; each field takes the value of the first binding whose regex
+    matches the field's (normalised) type, other fields are fresh symbols.  bindings: [(type_regex, value)]"""
+    fs = struct_fields(relpath, name)
+    vals, used = [], set()
+    for fname, ty in zip(fs, fs.types):
+        v = None
+        for i, (pat, val) in enumerate(bindings):
+            if i not in used and re.search(pat, ty):
+                v = val
+                used.add(i)
+                break
+        vals.append(v if v is not None else Sym(f'{prefix or name}.{fname}', ty))
+    if len(used) != len(bindings):
+        raise NotFound(f'struct {name}: no field for {[b[0] for i, b in enumerate(bindings) if i not in used]} among {fs.types}')
+    return Agg(name, None, tuple(vals))
 
 
 def struct_sym(name, ty, fields, values):
